@@ -4,12 +4,17 @@ for d in ${1:-/tmp/mut/out}/C*/[12]; do
   [ -f $d/patch.diff ] || continue
   id=$(basename $(dirname $d)); n=$(basename $d)
   if ! git -C /repo diff --quiet; then echo "/repo dirty"; exit 2; fi
-  if ! git -C /repo apply --check $d/patch.diff 2>/dev/null; then echo "$id/$n: PATCH DOES NOT APPLY"; continue; fi
-  git -C /repo apply $d/patch.diff
+  # patches were written against an earlier HEAD of /repo: fall back to reduced context when a later fix: commit touched nearby lines
+  ctx=""
+  if ! git -C /repo apply --check $d/patch.diff 2>/dev/null; then
+    if git -C /repo apply --check -C1 $d/patch.diff 2>/dev/null; then ctx="-C1"; elif git -C /repo apply --check --3way $d/patch.diff 2>/dev/null; then ctx="--3way"; else echo "$id/$n: PATCH DOES NOT APPLY"; continue; fi
+  fi
+  git -C /repo apply $ctx $d/patch.diff 2>/dev/null
+  if git -C /repo diff --name-only --diff-filter=U | grep -q .; then echo "$id/$n: PATCH CONFLICTS"; git -C /repo reset -q --hard HEAD; continue; fi
   tmp=$(mktemp -d)
   own=$(bin/wcheck -prop $id -tier quick -evdir $tmp 2>&1 | grep -E ": rule " | sed -E 's/.*: rule ([A-Za-z0-9.]+) (violation|undecided).*/\1:\2/' | sort | uniq -c | tr '\n' ' ')
   all=$(bin/wcheck -prop all -tier quick -evdir $tmp 2>&1 | grep -E "^VIOLATION" | sed -E 's/VIOLATION property=(C[0-9]+).*/\1/' | tr '\n' ' ')
-  git -C /repo checkout -- . ; git -C /repo clean -fdq
+  git -C /repo reset -q --hard HEAD; git -C /repo clean -fdq
   rm -rf $tmp
   echo "$id/$n: own=[${own}] failing_props=[${all}]"
 done
